@@ -175,6 +175,16 @@ Definition fn_tcp_dial_scope := mkFn "tcp_dial_scope"
   [("t.upgrader.Upgrade", "upgrade_outer")] [] [] Nop
   ["connScope.SetPeer"; "newTracingConn"; "tryKeepAlive"; "tryLinger"].
 
+(* websocket transport: same shape as tcp *)
+Definition fn_ws_dial := mkFn "ws_dial"
+  [("t.rcmgr.OpenConnection", (AcqScope, Nop, Impossible));
+   ("connScope.Done", (RelScope, RelScope, RelScope))]
+  [("t.dialWithScope", "ws_dial_scope")] [] [] Nop [].
+
+Definition fn_ws_dial_scope := mkFn "ws_dial_scope"
+  [("t.maDial", (AcqRaw, Nop, Impossible))]
+  [("t.upgrader.Upgrade", "upgrade_outer")] [] [] Nop [].
+
 Definition fn_conn_newstream := mkFn "conn_newstream"
   [("c.swarm.ResourceManager().OpenStream", (AcqSScope, Nop, Impossible));
    ("scope.Done", (RelSScope, RelSScope, RelSScope))]
